@@ -1,0 +1,35 @@
+//go:build verif
+
+// Contracts for the verifier in /verif (comment-only; compiled only with -tags verif).
+
+package dlnproof
+
+//@ global one != nil && val(one) == 1
+
+//@ define wfDLN(p) = forall k in 0..128 :: (p.Alpha[k] != nil && p.T[k] != nil && val(p.T[k]) >= 0 && val(p.Alpha[k]) >= 0)
+
+//@ func (*Proof).Verify
+//@   props C06 C11 C05
+//@   requires h1 != nil && h2 != nil && N != nil
+//@   requires p != nil ==> wfDLN(p)
+//@   ensures result ==> (p != nil && val(N) > 0)
+//@   ensures [C11.bases-in-range-and-distinct] result ==> (val(h1) % val(N) > 1 && val(h2) % val(N) > 1 && val(h1) % val(N) != val(h2) % val(N))
+//@   ensures [C11.all-128-responses-in-range] result ==> (forall k in 0..128 :: (val(p.T[k]) % val(N) > 1 && val(p.Alpha[k]) % val(N) > 1))
+//@   loop 0 invariant forall k in 0..$iter :: val(p.T[k]) % val(N) > 1
+//@   loop 1 invariant forall k in 0..$iter :: val(p.Alpha[k]) % val(N) > 1
+//@   loop 1 invariant forall k in 0..128 :: val(p.T[k]) % val(N) > 1
+//@   loop 2 invariant 0 <= i && i <= 128 && cIBI != nil && fresh(cIBI) && c != nil
+//@   loop 2 invariant forall k in 0..128 :: (val(p.T[k]) % val(N) > 1 && val(p.Alpha[k]) % val(N) > 1)
+
+//@ func UnmarshalDLNProof
+//@   props C06 C10
+//@   ensures result1 != nil ==> result0 == nil
+//@   ensures result1 == nil ==> (result0 != nil && fresh(result0))
+//@   assume-ensures [A-dln-decode] result1 == nil ==> wfDLN(result0)
+//@   loop 0 invariant len(bis) == len(bzs) && fresh(bis)
+//@   loop 0 invariant forall k in 0..$iter :: (bis[k] != nil && fresh(bis[k]) && allocated(bis[k]))
+
+//@ func (*Proof).Serialize
+//@   props C06 C10
+//@   requires p != nil
+//@   skip frame
